@@ -75,8 +75,8 @@ func ruleNoDiscardedPull(c *Ctx, r *R, rels ...string) {
 						return 0, false
 					}
 					pf.Edge = func(f *ssa.Function, g guard, q int) (StateSet, bool) {
-		blk := g.blk
-		_ = blk
+						blk := g.blk
+						_ = blk
 						if isSel {
 							// entering the arm that received the item
 							if cf, ok := g.asCmp(); ok && cf.op == token.EQL && isConstInt(cf.y, int64(selArm)) {
